@@ -10,6 +10,8 @@ open SA.DnsWire SA.WireCodec SA.DnsReq
 /-- an error text the protocol can carry: bytes, no NUL (the decoder reads it with ReadString(0)) -/
 def ErrOk (e : List Nat) : Prop := SA.Bytes e ∧ e.contains 0 = false
 
+instance (e : List Nat) : Decidable (ErrOk e) := by unfold ErrOk; infer_instance
+
 def ErrOptOk (err : Option (List Nat)) : Prop := ∀ e, err = some e → ErrOk e
 
 /-- field ranges, and the canonical form of an error response (an error response carries only the
